@@ -264,3 +264,23 @@ Theorem deque_chain_invariant_guarded_plain k progs sched :
   aba (fst (dq_run sched k progs)) = false ->
   exists c pend, chain_invariant_g (fst (dq_run sched k progs)) (snd (dq_run sched k progs)) c pend.
 Proof. exact (proj2 (proj2 (deque_chain_invariant_guarded_lemma k progs sched))). Qed.
+
+(* the body of the refuted full claim [deque_exactly_once_all_schedules], under the guard *)
+Theorem deque_exactly_once_guarded_lemma k progs sched :
+  let c := run dq_tstep sched (dq_init k, dq_locals progs) in
+  let lg := dlog (fst c) in
+  aba (fst c) = false ->
+  (forall v, count_occ_N v (popped_vals lg) <= count_occ_N v (pushed_vals lg))%nat /\
+  (al (anc (fst c)) = 0 -> (forall t, dq_done (snd c t) = true) ->
+   forall v, count_occ_N v (popped_vals lg) = count_occ_N v (pushed_vals lg)).
+Proof.
+  cbv zeta. intros AB. destruct (deque_conservation_guarded_lemma k progs sched AB) as (c & pend & CI & _ & LE & NF & _).
+  fold (dq_run sched k progs). split; [exact LE|]. intros Hal Hdone v.
+  destruct CI as (Eh & _ & _ & _ & Hpos & _).
+  assert (c = []).
+  { destruct c as [|a r]; [reflexivity|exfalso]. cbn [hd] in Eh.
+    destruct (Hpos a (or_introl eq_refl)) as [_ P]. unfold dq_run in *. lia. }
+  subst c. assert (P : Permutation (pushed_vals (dlog (fst (dq_run sched k progs)))) (popped_vals (dlog (fst (dq_run sched k progs))) ++ vals (fst (dq_run sched k progs)) [])).
+  { apply NF. intros t s a E. specialize (Hdone t). unfold dq_run in *. unfold dq_done in Hdone. rewrite E in Hdone. discriminate. }
+  cbn [vals map] in P. rewrite app_nil_r in P. symmetry. apply count_perm. exact P.
+Qed.
